@@ -65,8 +65,10 @@ CLAIMED = {
              "split position, and tree + parse-error equality with the same document with the attributes neutralised.",
         note="Trusted: Lean kernel; Spec.MetaExtract (my transcription of the standard's algorithm, cross-checked each run "
              "against an independent Python transcription); byte-level reading of an algorithm that only inspects ASCII; "
-             "the hand-written model + the meta correspondence. StrTendril::subtendril's UTF-8 boundary check is not "
-             "modelled (cuts are adjacent to ASCII bytes; C19_in_head_meta_total carries it as the hypothesis MetaDecodes)."),
+             "the hand-written model + the meta correspondence. StrTendril::subtendril's UTF-8 boundary check: the slice is cut next to "
+             "ASCII bytes of a UTF-8 string, hence at character boundaries, hence decodes - proved for every content string "
+             "(Props/C19Decodes.lean: C19_extract_boundaries, C19_label_decodes, C19_metaDecodes; the primed firing theorems carry "
+             "no hypothesis about it any more)."),
     "C10": dict(
         engine="utf8", design_ref="6.10",
         technique="Lean 4 proof (streaming invariant relating the pending incomplete prefix to the unread suffix; "
